@@ -148,6 +148,13 @@ class C01(Prop):
             out.append(mk('dec Header b' + (b'\xa1\x18\x63' + b'\xc6' * d + b'\x00').hex(), k='deep-child', n=d))
         out.append(mk('dec Value b' + (b'\x5f' + b'\x41\x00' * 200000 + b'\xff').hex(), k='chunks-child', n=200000))
         out.append(mk('dec CoseSign1 b' + (b'\x84\x40\xa0\x5a\x00\x10\x00\x00' + b'\x00' * (1 << 20) + b'\x40').hex(), k='big-child', n=1 << 20))
+        # sixteen levels of counter signatures through protected headers around a large innermost header: the work per level is
+        # the work below it, once (informed round 9: a second, discarded decode per level doubles it sixteen times)
+        inner = b'\xa1\x18\x63' + refcbor.head(4, 20000) + b'\x00' * 20000
+        w = inner
+        for _ in range(16): w = b'\xa1\x07\x83' + refcbor.head(2, len(w)) + w + b'\xa0\x40'
+        out.append(mk('dec Header b' + w.hex(), k='nest-work', n=16, timeout=60))
+        out.append(mk('dec CoseSign1 b' + (b'\x84' + refcbor.head(2, len(w)) + w + b'\xa0\xf6\x40').hex(), k='nest-work', n=16, timeout=60))
         n0 = 25000 if tier == 'quick' else 100000
         for shape, t, f in scale_shapes():
             for n in (n0, 4 * n0):
@@ -266,6 +273,11 @@ class C02(Prop):
                 ops.append(mk('verify mac (mac %s %s %s b0a (rcps (rcp %s %s - (rcps)))) %s vok' % (self.ph_form(p), E, pl, self.ph_form(p2), E, aad), planted=planted, k='verify'))
                 ops.append(mk('decrypt enc (enc %s %s b0102 (rcps (rcp %s %s b03 (rcps)))) %s cat' % (self.ph_form(p), E, self.ph_form(p2), E, aad), planted=planted, k='decrypt'))
                 ops.append(mk('decrypt rcp (rcp %s %s b0102 (rcps (rcp %s %s b03 (rcps)))) %s %s cat' % (self.ph_form(p), E, self.ph_form(p2), E, r.choice(['EncRecipient', 'MacRecipient', 'RecRecipient']), aad), planted=planted, k='decrypt'))
+                # a signature that holds stored bytes handed to the creating adders of COSE_Sign: the signer sees them, the built
+                # value keeps them (informed round 9: the four adders cleared original_data first)
+                sgf = '(sig %s %s b)' % (self.ph_form(p2), E)
+                for adder in ('add_created_signature %s %s echo' % (sgf, aad), 'add_detached_signature %s %s %s echo' % (sgf, pl, aad), 'try_add_created_signature %s %s (k b01)' % (sgf, aad), 'try_add_detached_signature %s %s %s (k b01)' % (sgf, pl, aad)):
+                    ops.append(mk('build CoseSignBuilder (protected %s) (payload %s) (%s)' % (E, pl, adder), planted=p2.hex(), k='build-keep'))
             else:
                 ops.append(mk('bstr b' + p.hex(), planted=planted, k='bstr'))
                 ops.append(mk('sigstruct CoseSign1 %s - %s %s' % (self.ph_form(p), aad, g.b()), planted=planted, k='struct'))
@@ -314,6 +326,11 @@ class C02(Prop):
                 enc = bytes.fromhex(items[3][1:])
                 want = refcbor.head(2, len(bytes.fromhex(pl))) + bytes.fromhex(pl)
                 if want not in enc: return 're-encoding does not contain the received protected bytes'
+        if k == 'build-keep':
+            if impl.startswith('ok') and '(ph b%s ' % pl not in impl: return 'a creating adder did not keep the stored protected bytes of the signature it was given'
+            want = (refcbor.head(2, len(bytes.fromhex(pl))) + bytes.fromhex(pl)).hex()
+            if impl.startswith('ok') and '(calls' in impl and want not in impl.split('(calls', 1)[1]: return 'the signer was not handed the stored protected bytes'
+            return None
         if k in ('struct', 'verify', 'decrypt'):
             want = (refcbor.head(2, len(bytes.fromhex(pl))) + bytes.fromhex(pl)).hex()
             if want not in impl: return 'structure does not carry the stored protected bytes'
@@ -340,6 +357,12 @@ class StructProp(Prop):
     def phs(self, g, r):
         x = r.random()
         if x < 0.03: return r.choice(self.UNSER), None      # repeats a label: serialising it fails, the structure functions refuse (panic)
+        if 0.09 <= x < 0.12:
+            # stored bytes that are present but empty, beside a parsed header that is not: the slot is the (empty) stored bytes
+            return '(ph b (hdr %s (crit) - b3131 b b (cs) (rest)))' % r.choice(['A1', 'A-7', '-']), b''
+        if 0.12 <= x < 0.15:
+            # built header whose extras hold what the serializer and the parser do not treat alike (short bignum tags, nested)
+            return '(ph - (hdr %s (crit) - b b b (cs) (rest i1000 %s)))' % (r.choice(['A-7', '-']), r.choice(['(tag 2 b0100)', '(tag 3 b00)', '(arr (tag 2 b01))', '(tag 2 b)', '(map i1 (tag 3 b0100))'])), None
         if x < 0.09 and x >= 0.06:
             # a header value holding both an IV and a Partial IV (only the public fields can build it; it encodes, entry by entry)
             return '(ph - (hdr %s (crit) - b b%s b%s (cs) (rest)))' % (r.choice(['-', 'A1', 'A-7']), r.choice(['01', '0102']), r.choice(['0a0b', '0c0d', '0e'])), None
@@ -480,7 +503,7 @@ class C04(StructProp):
                 kind = 'mac' if ctx == 'CoseMac' else 'mac0'
                 m = '(%s %s %s %s b0a0b%s)' % (kind, bf, C02.EMPTY, ('b' + pl.hex()) if has else '-', ' (rcps)' if kind == 'mac' else '')
                 ops.append(mk('verify %s %s b%s %s' % (kind, m, aad.hex(), r.choice(['vok', 'verr1'])), want=want if has else None, expect_panic=not has, k=kind))
-                if bb is None or bb == b'':
+                if (bb is None or bb == b'') and bf.startswith('(ph - '):
                     hb = bf[len('(ph - '):-1]
                     bops = '(protected %s) ' % hb + ('(payload b%s) ' % pl.hex() if has else '') + '(%s b%s echo)' % (r.choice(['create_tag', 'try_create_tag']), aad.hex())
                     ops.append(mk('build Cose%sBuilder %s' % ('Mac' if kind == 'mac' else 'Mac0', bops), k='build-' + kind, want_call=want if has else None, expect_panicx=not has))
@@ -535,7 +558,7 @@ class C05(StructProp):
                 isr = ctx.endswith('Recipient')
                 ops.append(mk('decrypt rcp %s %s b%s cat' % (m, ctx, aad.hex()), want=want if (has and isr) else None, expect_panic=not (has and isr), k='rcp'))
             else:
-                if bb is None or bb == b'':
+                if (bb is None or bb == b'') and bf.startswith('(ph - '):
                     hb = bf[len('(ph - '):-1]
                     isr = ctx.endswith('Recipient')
                     meth = r.choice(['create_ciphertext', 'try_create_ciphertext'])
